@@ -80,9 +80,9 @@ func (o *CandidateNode) copyToYamlNode(node *yaml.Node) {
 	node.Anchor = o.Anchor
 
 	// left to itself the emitter writes a multi-line string as a literal block, but it drops the first
-	// line when that is empty ("\na" comes back as "a") and a first line made of tabs cannot be read back
+	// line when that is empty ("\na" comes back as "a") and a first line made of, or starting with, tabs cannot be read back
 	if o.Kind == ScalarNode && o.Style == 0 {
-		if firstBreak := strings.IndexByte(o.Value, '\n'); firstBreak >= 0 && strings.Trim(o.Value[:firstBreak], " \t") == "" {
+		if firstBreak := strings.IndexByte(o.Value, '\n'); firstBreak >= 0 && (strings.Trim(o.Value[:firstBreak], " \t") == "" || o.Value[0] == '\t') {
 			node.Style = yaml.DoubleQuotedStyle
 		} else if firstBreak >= 0 && strings.ContainsAny(o.Value, "\u0085\u2028\u2029") {
 			// inside a literal block these count as line breaks and come back as a plain line feed
